@@ -230,6 +230,7 @@ func cmdCheck(args []string) int {
 	if len(fnsUnder) == 0 {
 		return failClosed(*verif, *prop, *tier, seed, "target", "no function under contract for this property", t0)
 	}
+	defAxiomsGlobal = ex.defAxioms
 	groups := groupObligations(ex.obls, axioms)
 	work := filepath.Join(*verif, ".work", *prop)
 	os.RemoveAll(work)
